@@ -47,6 +47,7 @@ def run(ctx, repo):
     ctx.call(R6B.r_no_codec_lookup, repo)
     ctx.call(R6B.r_constructor_kind_checked, repo, ['loader.FullLoader'])
     ctx.call(RSTATE.r_directives_reset, repo)
+    ctx.call(R6B.r_no_import_machinery, repo)
 
 
 if __name__ == '__main__':
